@@ -193,6 +193,57 @@ func SelfTest() (failed []string, n int) {
 		}
 		expect(badC, "R-COUNT: count that forgets the first write not detected")
 	}
+	// generic rules whose instance count on the real tree is zero
+	{
+		r4 := NewReport("SELF", "quick", "other")
+		ReportPanicSites(w, r4, "bitmap.BadNewPanic", "bitmap.GoodNoPanic")
+		ReportAllocWrap(w, r4, "bitmap.BadAllocWrap", "bitmap.GoodAllocGuarded")
+		st4 := map[string]Status{}
+		for _, o := range r4.Obs {
+			st4[o.Key] = o.st
+		}
+		expect(st4["R-PANICSITES|bitmap.BadNewPanic"] == Violated, "R-PANICSITES: an unconfirmed explicit panic is not reported")
+		expect(st4["R-PANICSITES|bitmap.GoodNoPanic"] == Discharged, "R-PANICSITES: false alarm")
+		expect(st4["R-ALLOCWRAP|bitmap.BadAllocWrap"] == Violated, "R-ALLOCWRAP: make(.., to-from) on unsigned operands without a guard is not reported")
+		expect(st4["R-ALLOCWRAP|bitmap.GoodAllocGuarded"] == Discharged, "R-ALLOCWRAP: false alarm on a guarded unsigned difference")
+	}
+	// shared machinery the no-false-alarm discipline rests on
+	guardedIdx := func(name string) bool {
+		f := fn("bitmap", name)
+		if f == nil {
+			return false
+		}
+		fa := w.FA(f)
+		okAll, nsite := true, 0
+		for _, site := range elemSites(f, "xs") {
+			nsite++
+			okSite := false
+			for _, cs := range fa.CondsDNF(site.Ins.Block(), 0) {
+				lo := fa.boundsFrom(cs, fa.Lin(site.Index))
+				hi := fa.boundsFrom(cs, fa.Lin(site.Index).Sub(linAtom("call:builtin len(p0)")))
+				okSite = lo.HasLo && lo.Lo == 0 && hi.HasHi && hi.Hi == -1
+				if !okSite {
+					break
+				}
+			}
+			if !okSite {
+				okAll = false
+			}
+		}
+		return okAll && nsite > 0
+	}
+	expect(guardedIdx("ThreadedGet"), "inliner: a boolean helper in an if condition is not threaded to the branch (guard 0 <= k < len lost)")
+	expect(guardedIdx("FlagGet"), "conditions: a boolean flag is not threaded to the condition that set it")
+	if f := fn("bitmap", "LinLen"); f != nil {
+		fa := w.FA(f)
+		for _, ret := range returnsOf(f) {
+			lx := linAtom("call:builtin len(p0)").Add(linConst(-1))
+			expect(fa.Lin(ret.Results[0]).Eq(lx), "linear forms: len(xs[1:]) is not len(xs)-1")
+			expect(fa.Lin(ret.Results[1]).Eq(fa.Lin(f.Params[1])), "linear forms: len(make([]T, n)) is not n")
+			prod, _ := linMul(fa.Lin(f.Params[3]), fa.Lin(f.Params[2]).Add(linConst(1)))
+			expect(fa.Lin(ret.Results[2]).Eq(prod), "linear forms: w*(j+1) is not w*j + w")
+		}
+	}
 	return failed, n
 }
 
